@@ -9,11 +9,14 @@ from . import common
 MODULE = "StorageModel.Properties.C10"
 THEOREMS = [
     # regenerated data = what the model was written against
-    "class_table_is_expected", "sites_are_expected", "wiring_is_expected", "callbacks_are_expected",
-    # 2a lexer
+    "class_table_is_expected", "sites_are_expected", "wiring_is_expected", "pool_wiring_is_expected", "callbacks_are_expected",
+    "lexer_table_is_good", "lexer_atn_matches_grammar", "parser_atn_matches_grammar", "generated_code_is_pinned",
+    "parser_rules_are_expected",
+    # 2a lexer: for every rule table (`_any`), and instantiated at the table compiled from the regenerated grammar file
+    "lex_lossless_any", "lex_tokens_match_rules_any", "lex_error_is_real_any", "lex_rejects_unrecognised_any",
     "lex_lossless", "lex_tokens_match_rules", "lex_error_is_real", "lex_rejects_unrecognised",
     # 2b recogniser
-    "parse_sound", "accepts_sound", "accepts_iff_partial",
+    "parse_sound", "accepts_sound", "parse_complete", "accepts_iff", "accepted_is_g4_sentence", "accepts_iff_g4",
     # 1a listener
     "listener_no_panic", "listener_builds_query", "listener_no_panic_on_trees",
     # 1b typing, 1c evaluation, everything together
@@ -22,12 +25,23 @@ THEOREMS = [
     "tree_cursor_no_panic", "tree_cursor_enumerates",
     # 1e bolt-backed Symbols
     "bolt_symbols_no_panic",
+    # 1f sorting / paging in the store
+    "bolt_sort_no_panic",
+    # 1g objectz
+    "objectz_scan_order_is_repaired", "objectz_scan_no_panic", "objectz_scan_follows_code",
 ]
 TABLE_OBLIGATIONS = [
     "class_table_is_expected (Generated/C10Classes.lean: interfaces implemented by every ast node class, from ast/*.go)",
-    "sites_are_expected (Generated/C10Sites.lean: unchecked type assertions / dereferences / constant indexes in the listener, transform, eval and cursor files)",
+    "sites_are_expected (Generated/C10Sites.lean: unchecked type assertions / dereferences (of identifiers and of call results, with: compared with nil in the function) / constant indexes / slices in the listener, transform, eval and cursor files of ast, and in boltz query_cursor.go, query_sort.go, query_scanners.go, store_query.go NewScanner/newRowComparator, typed_bucket.go FieldTo*/BytesTo*)",
     "wiring_is_expected (Generated/C10Sites.lean: zitiql.parse attaches the collecting error listener to lexer AND parser)",
+    "pool_wiring_is_expected (Generated/C10Sites.lean: zitiql.parse removes the pooled parser's error listeners before use on every path and, deferred, after use)",
     "callbacks_are_expected (Generated/C10Sites.lean: the ToBoltListener callbacks that exist are the modelled ones)",
+    "objectz_scan_follows_code (Generated/C10Sites.lean objScanNilTestFirst: the order of `cursor == nil` and the first use of the iterator in objectz memSortingScanner.Scan selects the model variant; objectz_scan_order_is_repaired: the order is the repaired one of bbcb51c, for which the full no-panic statement is proved; the other order is refuted)",
+    "lexer_table_is_good (Generated/C10Lexer.lean: zitiql/ZitiQl.g4 re-read on every run; its lexer rules compile - references resolve, no recursion, every token known - into the rule table the reference lexer INTERPRETS, and the table satisfies GoodTable: one rule per token type in ANTLR's numbering, no rule matches the empty string, outside STRING only recognised characters)",
+    "lexer_atn_matches_grammar (Generated/C10Atn.lean: the serializedATN literal of zitiql_lexer.go decoded; rule names incl. fragments in file order, token numbering, literal/symbolic names and - rule by rule - the multiset of transition labels equal what the Lean side computes from the grammar file's lexer rules)",
+    "parser_atn_matches_grammar (Generated/C10Atn.lean: the same for zitiql_parser.go: rule names, boolExpr the only precedence rule with predicates 6/5 and the not-operand at precedence 1, per rule the token / rule-call labels of the grammar file's parser rules)",
+    "generated_code_is_pinned (Generated/C10Atn.lean: SHA-256, length, state and decision counts of both serializedATN literals = C10/Expected.lean)",
+    "parser_rules_are_expected (Generated/C10Lexer.lean: the parser rules of the grammar file = the rules the derivation trees / wf / recogniser were written against; G4.Derives over these rules is what accepted_is_g4_sentence concludes)",
 ]
 
 NPROC = max(2, min(8, (os.cpu_count() or 4) // 2))
@@ -86,7 +100,7 @@ def text_of(case):
     try:
         if f[0] == "L":
             return _unhex(f[1]).decode("utf-8", "replace")
-        if f[0] in ("Q", "B"):
+        if f[0] in ("Q", "B", "O"):
             return _unhex(f[-1]).decode("utf-8", "replace")
     except ValueError:
         pass
@@ -113,6 +127,8 @@ def compare(case, impl, model, spec, estage):
     if kind in ("L", "Q"):
         if A.get("acc") != S.get("acc"):
             prop.append(f"accept/reject: implementation acc={A.get('acc')} but the reference recogniser says acc={S.get('acc')}")
+        if A.get("dbg") == "1" and A.get("acc") == "0":
+            prop.append("zitiql.ParseWithDebug(debug=true) reports no error for text the plain parse (and the reference recogniser) rejects")
         for k in ("tok", "acc"):
             if A.get(k) != M.get(k):
                 corr.append(f"{k}: impl {A.get(k)} model {M.get(k)}")
@@ -143,6 +159,9 @@ def compare(case, impl, model, spec, estage):
     if kind == "B":
         if not impl.startswith("bolt="):
             prop.append("bolt store: " + impl)
+    if kind == "O":
+        if not impl.startswith("obj="):
+            prop.append("object store: " + impl)
     if kind == "T":
         if impl != spec:
             prop.append(f"tree cursor: impl {impl} spec {spec}")
@@ -151,14 +170,16 @@ def compare(case, impl, model, spec, estage):
     return prop, corr
 
 
-MATCHERS = {}
+MATCHERS = {}  # no open finding (objectz nil iterator: fixed in bbcb51c)
 
 RULE = ("streams: grammar-derived sentences with type-undirected operands; 1-2 token-level mutations of them "
         "(delete/duplicate/swap/replace/insert, unrecognised characters); all token sequences of length <=3 (quick) / <=4 "
         "(thorough) over two ~20-token alphabets joined by a blank and short ones joined by nothing; random token "
         "sequences; random code points; sentences over a schema evaluated against rows with null fields, empty sets, "
         "empty child stores; the same kind of sentences through real bolt stores (empty store, entities without fields, "
-        "populated) judged for panics; tree-set cursor scripts. distinct = distinct case lines; non-trivial = the input is not "
+        "populated, mixed, a 14-row dataset with null / equal / NaN sort keys, mistyped values) and through objectz stores (empty, nil "
+        "fields, full, mixed, nil iterator), plus sort clauses over every symbol kind, 1-8 fields, duplicates, and every skip x limit out "
+        "of 16 extreme values, judged for panics; every ASCII and 24 non-ASCII code points in 28 lexical contexts; tree-set cursor scripts. distinct = distinct case lines; non-trivial = the input is not "
         "trivially rejected at its first token (at least two tokens lexed) or is accepted")
 
 
@@ -171,6 +192,8 @@ def nontrivial(case, impl):
         return None
     if k == "B":
         return case if impl.startswith("bolt=ok") or impl.startswith("panic") else None
+    if k == "O":
+        return case if impl.startswith("obj=ok") or impl.startswith("panic") else None
     return case
 
 
@@ -185,6 +208,8 @@ def histogram(lines, impl):
                 key = "Q:" + (A.get("res") or "?")
         elif k == "B":
             key = "B:" + ("panic" if a.startswith("panic") else ("evaluated" if a.startswith("bolt=ok") else "rejected"))
+        elif k == "O":
+            key = "O:" + ("panic" if a.startswith("panic") else ("evaluated" if a.startswith("obj=ok") else "rejected"))
         else:
             key = k
         h[key] = h.get(key, 0) + 1
@@ -193,7 +218,9 @@ def histogram(lines, impl):
 
 def run(ctx, replay_cases=None):
     ctx.assumptions += [
-        "the ANTLR runtime and the generated zitiql_lexer.go / zitiql_parser.go are represented by the reference lexer / recogniser of StorageModel/C10 (token stream, accept/reject and listener callback sequence compared on every generated input)",
+        "the ANTLR runtime (ATN interpreter, prediction, error recovery) is represented by the reference lexer - which interprets the rule table compiled from zitiql/ZitiQl.g4 as re-read on every run - and the reference recogniser, proved equivalent to the grammar file's parser rules (accepts_iff_g4); the generated zitiql_lexer.go / zitiql_parser.go are tied to the same file by their decoded ATNs (labels per rule, names, numbering - not the graph structure) and by comparing token stream, accept/reject and listener callback sequence on every generated input",
+        "the .g4 reader of extract/c10_lexer.go parses the grammar file correctly (what it yields is cross-checked against the generated Go code by lexer_atn_matches_grammar / parser_atn_matches_grammar)",
+        "bolt_sort_no_panic: stored values are what the TypedBucket setters write (tag bool/int32/int64/float64 with payload length 1/4/8/8); bbolt, llrb and the boltz / objectz iteration are exercised for panics on real stores, not modelled",
         "ANTLR parse-tree walks, also of error-recovered trees, visit only element tokens inside the three array rules (predicate `clean`, checked on every real callback sequence)",
         "ast.Symbols implementations return non-nil cursors from OpenSetCursor / OpenSetCursorForQuery (boltz/query_cursor.go does)",
         "float64 literals and fields are modelled by their exact decimal value; the generator keeps evaluated numbers to <= 15 significant digits and |n| < 2^53 where this is exact",
